@@ -398,7 +398,19 @@ func c19r3(c *an.Ctx) {
 	if b := test.Cond.(*ssa.BinOp); b.Op == token.NEQ {
 		firstEdge = 1
 	}
-	won := func(b *ssa.BasicBlock) bool { return an.EdgeDominates(test.Block(), firstEdge, b) }
+	// on the winning side of the test: dominated by that edge, or behind a test of a value that is only non-nil /
+	// true when it was assigned on that side (a channel to close after unlocking, a flag)
+	won := func(b *ssa.BasicBlock) bool {
+		if an.EdgeDominates(test.Block(), firstEdge, b) {
+			return true
+		}
+		for _, g := range an.GuardsOf(b) {
+			if g.If == test && g.True == (firstEdge == 0) {
+				return true
+			}
+		}
+		return false
+	}
 	n := 0
 	an.Instrs(fn, func(in ssa.Instruction) {
 		eff := ""
@@ -665,7 +677,7 @@ func c19r7(c *an.Ctx) {
 				return
 			}
 			b, isB := call.Common().Value.(*ssa.Builtin)
-			if !isB || b.Name() != "close" || len(call.Common().Args) != 1 || !isLoadOfField(call.Common().Args[0], sch) {
+			if !isB || b.Name() != "close" || len(call.Common().Args) != 1 || !isFieldOrNil(call.Common().Args[0], sch, 0) {
 				return
 			}
 			nClose++
@@ -705,4 +717,27 @@ func c19r7(c *an.Ctx) {
 	c.Floor("stores to Signal.ch", 1, nStore)
 	c.Floor("close(s.ch) sites", 1, nClose)
 	c.Floor("installations of the closed sentinel", 1, nSent)
+}
+
+// isFieldOrNil: v is the value of field f, possibly parked in a local that is nil on the other ways in (a channel to
+// close after the lock is released).
+func isFieldOrNil(v ssa.Value, f *types.Var, depth int) bool {
+	if isLoadOfField(v, f) {
+		return true
+	}
+	phi, ok := v.(*ssa.Phi)
+	if !ok || depth > 3 {
+		return false
+	}
+	some := false
+	for _, e := range phi.Edges {
+		if an.IsNilConst(e) {
+			continue
+		}
+		if !isFieldOrNil(e, f, depth+1) {
+			return false
+		}
+		some = true
+	}
+	return some
 }
